@@ -1683,6 +1683,9 @@ fn main() {
         ses.finish(&mut sut);
     }
     let thorough = ses.tier() != Tier::Quick;
+    // development aid: C20_SECTIONS=grid,app runs only those sections (and does not enforce the coverage floor)
+    let only: Option<Vec<String>> = std::env::var("C20_SECTIONS").ok().map(|v| v.split(',').map(|x| x.to_string()).collect());
+    let sec = |name: &str| only.as_ref().map_or(true, |o| o.iter().any(|x| x == name));
 
     // ---- coverage floor: without these the run would be vacuous in exactly the respects the round-3 review found blind
     for r in [
@@ -1717,10 +1720,15 @@ fn main() {
         "sg721-updatable/Direct/compatible/lt-earliest/t-real/err",
         "sg721-updatable/Direct/compatible/lt-3.0.0/t-real/ok",
     ] {
-        ses.require(r);
+        if only.is_none() {
+            ses.require(r);
+        }
     }
     for key in ["base-factory", "vending-factory", "open-edition-factory", "token-merge-factory", "vending-minter", "vending-minter-wl-flex", "vending-minter-merkle-wl",
                 "open-edition-minter", "token-merge-minter", "sg-splits", "whitelist-merkletree", "tiered-whitelist-merkletree", "sg721-updatable"] {
+        if only.is_some() {
+            break;
+        }
         for c in ["own/newer/t-real/err", "own/older/t-real/ok", "sibling/older/t-real/err", "own/unparsable/"] {
             ses.require(format!("{key}/Direct/{c}"));
         }
@@ -1762,6 +1770,9 @@ fn main() {
     // ---------------------------------------------------------------------------- 0. corpus: the dedup deviation, all factories
     // (generated run: tolerated + marked; `strict_ids=1` — corpus/C20/ids-compacted-without-ids.json — raises the monitor key)
     for (key, class, _) in CONTRACTS.iter() {
+        if !sec("corpus") {
+            break;
+        }
         if !matches!(class, Class::Factory(_)) {
             continue;
         }
@@ -1786,6 +1797,9 @@ fn main() {
     // migrated — version-raising, then again — from a state in which the flags a careless migrate would "initialise" are NOT at
     // their instantiate values
     for (key, class, target) in CONTRACTS.iter() {
+        if !sec("moved") {
+            break;
+        }
         let acts: &str = match target {
             Target::Factory(_) => "3,6",              // sudo update_params: 3 and 6 set frozen=true
             Target::Minter(_) => "0,2,4",             // mint, discount / mint_to, sudo update_status(true,true,true)
@@ -1844,6 +1858,9 @@ fn main() {
     // migrated to the sg721-updatable code (queries before are answered by sg721-base, after by sg721-updatable)
     let n_x = ses.scale(12, 90);
     for i in 0..n_x {
+        if !sec("xcode") {
+            break;
+        }
         for mode in ["app", "direct"] {
             let acts = match i % 3 {
                 0 => "-".to_string(),
@@ -1881,6 +1898,9 @@ fn main() {
     // ---------------------------------------------------------------------------- 1. the version grid × names, route (i)
     let reps = if thorough { 2 } else { 1 }; // thorough: two independent state variants per (contract, name)
     for rep in 0..reps {
+        if !sec("grid") {
+            break;
+        }
     for (ci, (key, class, _)) in CONTRACTS.iter().enumerate() {
         let ci = ci + 7 * rep;
         let own: Vec<String> = if *class == Class::Updatable { upd_accepted.clone() } else { vec![sut.identity(key).0] };
@@ -1954,6 +1974,9 @@ fn main() {
 
     // ---------------------------------------------------------------------------- 2. malformed versions, missing record, bare stores
     for (key, class, _) in CONTRACTS.iter() {
+        if !sec("garbage") {
+            break;
+        }
         for mode in ["direct", "bare"] {
             let header = format!("case garbage c={key} mode={mode} seed={} acts=-", ses.rng.below(1000));
             ses.begin_case(&mut sut, &header);
@@ -1981,6 +2004,9 @@ fn main() {
     // ---------------------------------------------------------------------------- 3. reachable states inside the App, route (ii) + histories
     let n_app = ses.scale(80, 500);
     for (key, class, _) in CONTRACTS.iter() {
+        if !sec("app") {
+            break;
+        }
         if *class == Class::Base721 {
             continue; // a method, not an entry point: nothing to call through the App
         }
@@ -2048,6 +2074,9 @@ fn main() {
 
     // ---------------------------------------------------------------------------- 4. exact boundary instants × threshold versions
     for (key, class, _) in CONTRACTS.iter() {
+        if !sec("boundary") {
+            break;
+        }
         if !matches!(class, Class::Vending | Class::Updatable | Class::Base721 | Class::MetaOnchain) {
             continue;
         }
